@@ -10,6 +10,9 @@ Outcomes must be plain data or ExpressionError (MerchantParseError / SectionPars
 """
 import ast
 import copy
+import os
+import shutil
+import tempfile
 import datetime
 import json
 import random
@@ -507,6 +510,11 @@ normalized("NETFLIXCOM") or fuzzy("NETFLIX")
 anyof("ZZZ", "NETFLIX")
 startswith("NET")
 exists(field.memo)
+rows[0]
+[r for r in rows]
+rows
+[r for r in rows if r.when == "2025-01-02"]
+next((r for r in orders), rows[0])
 '''.strip().splitlines()
 
 VIEW_PAYLOADS = r'''
@@ -789,6 +797,30 @@ def run_file_contexts(rec, ep, s, rnd):
         surf = {'tags': sorted(res.tags), 'fields': res.extra_fields, 'desc': t.get('description'), 'f': t.get('field')}
         return surf
     out = plain_outcome(rec, 'rules file ' + slot, s, go, hay(s) + text, ep, final_generator_ok=False, immut=[txn, rows])
+    if slot in ('field', 'let', 'variable', 'tag'):
+        # the same rules file through the path `tally up` takes (get_all_rules -> normalize_merchant): the supplemental rows it was given keep
+        # their values AND their types (a date stays a date)
+        from tally import merchant_utils as mu
+        tmpd = tempfile.mkdtemp(prefix='vt-c03-p-')
+        try:
+            pth = os.path.join(tmpd, 'm.rules')
+            with open(pth, 'w', encoding='utf-8') as fh:
+                fh.write(text)
+            rows_live = copy.deepcopy(ROWS)
+            snap = repr(rows_live)
+            try:
+                mu.clear_engine_cache()
+                rules = mu.get_all_rules(pth)
+                mu.normalize_merchant(TXN['description'], rules, amount=TXN['amount'], txn_date=TXN['date'], field=copy.deepcopy(TXN['field']),
+                                      data_source=TXN['source'], location=TXN['location'], data_sources=rows_live)
+            except Exception:
+                pass
+            rec.count('production_path_row_immutability_checks')
+            if repr(rows_live) != snap:
+                rec.violation('classification-mutates-supplemental-rows:' + slot, f'rules file {slot}: {s!r}: normalize_merchant changed the supplemental rows: '
+                              f'{snap[:160]} -> {repr(rows_live)[:160]}', {'kind': 's', 'where': 'rules file ' + slot, 's': s})
+        finally:
+            shutil.rmtree(tmpd, ignore_errors=True)
     if 't' in seen:
         rec.count('matched_transaction_immutability_checks')
         if not same_data(seen['before'], seen['t']):
